@@ -5,6 +5,14 @@ from .rules import u_unsafe as U
 from .rules import s_state as S
 from .rules import p_primitive as P
 from .rules import b_bits as B
+from .rules import w_witness as W
+from .rules import e_errors as E
+from .rules import r_regions as R
+from .rules import o_order as O
+from .rules import t_tables as T
+from .rules import d_derive as D
+from .rules import g_grammar as G
+from . import thorough as TH
 
 
 def _n1(an, rep):
@@ -19,20 +27,143 @@ THIRD_PARTY = "third-party crates (chrono, flate2/miniz_oxide, num-bigint, bigde
               "std) behave as documented; a callee without a `# Panics` section in its rustdoc does not panic"
 MIR_TB = ["rustc nightly front end + MIR construction (mir-opt-level=0, overflow checks on)", "mirdump fact extraction",
           "the rule implementations under /verif/py/vf"]
+STATIC_ONLY = "structural necessary conditions are decided for every value at once; the end-to-end equality on concrete " \
+              "values (a dynamic statement) is not decided and no test is run in its place"
+CORPUS = "the `all derivable declarations` quantifier is represented by the declaration corpus (/verif/corpus + every " \
+         "derived type in the repository; the thorough tier adds a generated family)"
 
 PROPS = {
+    "C01": {
+        "level": "other",
+        "rules": [G.pair_table, G.pairs_unify, G.writers_conform, G.sequences, G.char_codec, P.output_methods, P.input_methods,
+                  U.transmutes, R.no_peeking],
+        "thorough": [TH.feature_matrix_grammar],
+        "explanation": "Structural round-trip argument: every built-in type has one writer/reader pair (G1); for each pair every "
+                       "writer path unifies with a reader path that reads the same primitives in the same order, honours the "
+                       "writer's tag constants, lets length binders govern payloads and routes each binder into the "
+                       "constructor slot the writer filled (G2/G6); sequence readers are exhaustive (G4/G9); floats and "
+                       "integers travel through same-type to_be_bytes/from_be_bytes (P1/P3); the byte fast paths copy between "
+                       "equal types (U2); no decoder depends on the remaining length (R4).",
+        "assumptions": [STATIC_ONLY, THIRD_PARTY + " and their conversions are mutually inverse (to_string/parse, "
+                        "to_be_bytes/from_signed_bytes_be, from_local_datetime, UTF-16 encode/decode)"],
+        "trusted_base": MIR_TB,
+    },
+    "C02": {
+        "level": "translation_validation",
+        "rules": [D.validate, T.record_writer, T.read_field, T.read_optional_field, T.header_reader],
+        "thorough": [TH.generated_corpus],
+        "explanation": "Translation validation of the derive macro: for every corpus declaration the generated writer, reader "
+                       "and metadata static (extracted from the expansion's MIR) equal the skeleton computed by an independent "
+                       "model of the documented field-by-field procedure (D1-D6); T6/T1/T2/T4 give the meaning of the "
+                       "AdtSerializer/AdtDeserializer calls the skeleton consists of.",
+        "assumptions": [CORPUS, STATIC_ONLY],
+        "trusted_base": MIR_TB + ["syn (declaration reader)", "the declaration model in py/vf/rules/d_derive.py"],
+    },
+    "C03": {
+        "level": "other",
+        "rules": [T.read_field, T.read_optional_field, T.header_reader, T.header_writer, T.step_codes, T.field_position,
+                  T.metadata_tables, T.record_writer, R.chunks_skipped, R.pairing, D.validate],
+        "explanation": "The reader's and writer's decision procedures are compared, path by path, with the documented outcome "
+                       "table: read_field / read_optional_field rows incl. the two specific errors (T1, T2), header "
+                       "interpretation (T4) and construction (T5), step and position codes (T7, T8), metadata tables with the "
+                       "FieldRemoved/FieldMadeTransient alias rule (T14), per-chunk positions (T6), all chunks skipped up front "
+                       "(R5), reads confined to their chunk's region (R1); derived types use their declared history (D4).",
+        "assumptions": ["not decided: the composed value for a concrete (history, writer version, reader version): each "
+                        "decision and the population of its inputs is checked, their composition over a concrete history is dynamic",
+                        CORPUS],
+        "trusted_base": MIR_TB + ["the decision tables transcribed from the Evolution doc comments in py/vf/rules/t_tables.py"],
+    },
+    "C04": {
+        "level": "other",
+        "rules": [G.writers_conform, G.pairs_unify, G.sequences, G.char_codec, G.compressed_frame, P.output_methods,
+                  P.input_methods, B.varints, T.record_writer, T.step_codes, T.field_position, T.sequence_writer,
+                  T.sequence_reader, T.constructors, T.dedup_strings, T.ref_protocol, D.validate],
+        "thorough": [TH.feature_matrix_grammar],
+        "explanation": "Absolute conformance of structure: the writer grammar of every built-in codec equals the FORMAT table "
+                       "(kinds, order, tag constants, VarI32 vs VarU32 prefixes, slot labels) (G3/G6), primitives are "
+                       "big-endian to_be_bytes (P1/P3), varints are bit-exact (B1-B6), record/step/position layout (T6-T8), "
+                       "both sequence forms (T13) and a reader accepting both (T12), enum layout (T3, D2), state protocols "
+                       "(T9, T10).  A change applied symmetrically to writer and reader is caught because the oracle is the "
+                       "format table, not the other half.",
+        "assumptions": ["the FORMAT table in py/vf/rules/g_grammar.py is a hand transcription of the documented format",
+                        "byte equality for concrete values and the golden file itself are not analysed", THIRD_PARTY],
+        "trusted_base": MIR_TB + ["FORMAT table"],
+    },
     "C05": {
         "level": "other",
-        "rules": [_n1, N.sign_loss_casts, N.alloc_taint, N.loops_progress, P.sources_agree, U.inventory, U.transmutes,
-                  U.uninit_apis],
-        "explanation": "Static totality argument for the decode side over the resolved MIR of desert_core: every "
-                       "may-panic site reachable from the decode entry points is enumerated and discharged (N1), no signed "
-                       "wire integer becomes a size unchecked (N3), no allocation is sized by an unsanitised wire value "
-                       "(N4), every loop makes progress (N5), the three sources use one overflow-safe bounds guard (P4), "
-                       "and the unsafe inventory is closed with typed transmute obligations (U1-U3).",
-        "assumptions": [THIRD_PARTY,
-                        "not decided: wall-clock and heap budgets, stack depth of recursive decoders",
+        "rules": [_n1, N.sign_loss_casts, N.alloc_taint, N.loops_progress, E.decode_errors, P.sources_agree, R.coordinates,
+                  U.inventory, U.transmutes, U.uninit_apis, D.validate, D.macrolint],
+        "thorough": [TH.feature_matrix_totality],
+        "explanation": "Static totality argument for the decode side over the resolved MIR of desert_core: every may-panic site "
+                       "reachable from the decode entry points is enumerated and discharged (N1), no signed wire integer "
+                       "becomes a size unchecked (N3), no allocation is sized by an unsanitised wire value (N4), every loop "
+                       "makes progress (N5), errors propagate (E1), the three sources use one overflow-safe bounds guard (P4), "
+                       "region offsets live in one coordinate system (R3), the unsafe inventory is closed with typed transmute "
+                       "obligations (U1-U3), generated readers end in an error return and contain no panicking construct (D7, D8).",
+        "assumptions": [THIRD_PARTY, "not decided: wall-clock and heap budgets, stack depth of recursive decoders",
                         "allow-listed sites rest on the invariants named in their reason lines (checked by packs P/R/T)"],
+        "trusted_base": MIR_TB,
+    },
+    "C06": {
+        "level": "other",
+        "rules": [R.coordinates, R.pairing, R.chunks_skipped, G.pairs_unify, G.sequences, E.decode_errors, T.read_field,
+                  T.header_reader, T.sequence_reader, T.ref_protocol, T.dedup_strings],
+        "explanation": "Framing is honoured structurally: a chunk window bounds the reads made inside it (R3), each field read "
+                       "lies inside the window of its own generation and the advanced cursor is written back (R1), chunk windows "
+                       "come from skipped sizes (R5), every length / count / tag read governs the bytes that follow (G2), unknown "
+                       "tags and ids are errors (G7, T9, T10), arrays are built only from exactly L elements and sequence "
+                       "consumers are exhaustive (G8, G9), errors propagate (E1).",
+        "assumptions": ["not decided: agreement of accepted values with a strict reference decoder on tampered inputs (dynamic)",
+                        "the reader's leniencies are those of DESIGN 4.5"],
+        "trusted_base": MIR_TB,
+    },
+    "C07": {
+        "level": "other",
+        "rules": [G.pairs_unify, G.sequences, R.no_peeking, R.chunks_skipped, R.pairing, T.constructors, T.sequence_reader,
+                  T.sequence_writer, G.compressed_frame],
+        "explanation": "Self-delimitation by structure: each reader path consumes exactly the primitives its writer path emitted "
+                       "(G2, by induction over nested codecs), sequence readers consume the terminator / all counted items "
+                       "(G4, G9, T12, T13), no decoder looks at the remaining length (R4), an evolved record moves the parent "
+                       "cursor over all declared chunks exactly once whatever the reader's version (R5) while field reads happen "
+                       "in regions that do not move it (R1), the constructor index is read once (T3).",
+        "assumptions": ["the embedded + stored-version-0 + removal case is excluded (no framing in the format)", STATIC_ONLY],
+        "trusted_base": MIR_TB,
+    },
+    "C08": {
+        "level": "other",
+        "rules": [P.sources_agree, R.coordinates, R.chunks_skipped, E.decode_errors, T.sequence_reader, T.header_reader,
+                  G.pairs_unify, G.sequences],
+        "explanation": "By reduction: the decoder reads every byte of the encoding (C07's clauses: G2, G4/G9, R5), every read or "
+                       "skip past the end is InputEndedUnexpectedly through one overflow-safe guard (P4) with region ends inside "
+                       "the input (R3), no error is swallowed or defaulted (E1), a failed count read or a failed item read in "
+                       "the unknown-size form is an error item, never the end of the sequence (T12): any strict prefix fails at "
+                       "the first read crossing the cut.",
+        "assumptions": [STATIC_ONLY, "version-0 data carries no sizes (format limit, excluded by the property)"],
+        "trusted_base": MIR_TB,
+    },
+    "C09": {
+        "level": "other",
+        "rules": [T.dedup_strings, T.state_tables, S.constructors_and_writers, B.varints, E.error_sites, O.header_strings,
+                  D.validate],
+        "explanation": "Writer/reader protocol of the string table (T9: the first occurrence is exactly <String>::serialize, a "
+                       "repeat is VarI32(-id), unknown ids are InvalidStringId, the reader registers every first occurrence "
+                       "exactly once), one numbering function starting at 1 used by both sides and no other writer of the "
+                       "tables (T11, S3), a back-reference is a VarI32 of at most 5 bytes (B6), emission order equals stream "
+                       "order except for the known header finding (O1), derived writers emit fields in declaration order, "
+                       "which is the order the reader uses (D1).",
+        "assumptions": ["not decided: the decoded string sequence for a concrete interleaving (dynamic)"],
+        "trusted_base": MIR_TB,
+    },
+    "C10": {
+        "level": "other",
+        "rules": [T.ref_protocol, T.state_tables, S.constructors_and_writers, E.error_sites],
+        "explanation": "The library's obligations towards a user codec are the protocol clauses: first offer writes VarU32(0) and "
+                       "returns true, later offers write the 1-based first-offer id through the context (so chunk buffering "
+                       "applies) and return false; the reader maps 0 to `new object` and any other id through a checked lookup "
+                       "to the object or InvalidRefId (T10); one numbering function from 1 shared by both sides, no other writer "
+                       "of the tables (T11, S3).",
+        "assumptions": ["graph isomorphism, sharing and termination on cycles are properties of the user codec built on this "
+                        "protocol and are not decided"],
         "trusted_base": MIR_TB,
     },
     "C11": {
@@ -45,6 +176,39 @@ PROPS = {
         "assumptions": ["MIR semantics of shift / mask / cast / compare as implemented in py/vf/bitai.py"],
         "trusted_base": MIR_TB + ["py/vf/bitai.py transfer functions"],
     },
+    "C12": {
+        "level": "other",
+        "rules": [G.sequences, T.sequence_writer, T.sequence_reader, G.pairs_unify],
+        "explanation": "All SEQ writers have one grammar (serialize_iterator or the same layout hand-written) and all byte "
+                       "containers one (G4); the writer's two size forms (T13) are both accepted by the one shared reader "
+                       "(T12); every reader consumes the whole element stream and arrays check the count (G9, G8); maps are "
+                       "sequences of 2-tuples (G2 on the tuple codec).",
+        "assumptions": ["element order of hash containers is unordered by nature (excluded by the property)", STATIC_ONLY],
+        "trusted_base": MIR_TB,
+    },
+    "C13": {
+        "level": "translation_validation",
+        "rules": [D.validate, D.macrolint, T.constructors, E.error_sites],
+        "thorough": [TH.generated_corpus],
+        "explanation": "For every corpus enum the constructor index is the position in declaration order (name order under "
+                       "sorted_constructors), identical in the writer arm and the reader chain, all variants covered, extension "
+                       "pairs keep the indices of existing variants (D2); selection is by the cached index alone and the index "
+                       "is a VarU32 followed by the case record (T3); an unknown index is InvalidConstructorId, a transient one "
+                       "DeserializingTransientConstructor (D7, D3, E3); generated code contains no panicking construct (D8).",
+        "assumptions": [CORPUS],
+        "trusted_base": MIR_TB + ["syn", "the declaration model"],
+    },
+    "C14": {
+        "level": "translation_validation",
+        "rules": [D.validate, T.header_writer, T.metadata_tables],
+        "thorough": [TH.generated_corpus],
+        "explanation": "Transient fields: no write_field, no read, the written values do not depend on the field, the declared "
+                       "default is used; transient constructors produce the two dedicated errors naming type and constructor "
+                       "(D3); a FieldMadeOptional step whose field is no longer written falls back to FieldRemoved for removed "
+                       "and for transient names (T5 + the alias rule T14).",
+        "assumptions": [CORPUS],
+        "trusted_base": MIR_TB + ["syn", "the declaration model"],
+    },
     "C15": {
         "level": "other",
         "rules": [P.output_methods, P.sink_bodies, P.input_methods, P.sources_agree, P.parametricity, S.fresh_context],
@@ -56,24 +220,50 @@ PROPS = {
                         THIRD_PARTY],
         "trusted_base": MIR_TB,
     },
+    "C16": {
+        "level": "other",
+        "rules": [G.compressed_frame, N.alloc_taint, N.narrowing_casts, P.sources_agree, E.decode_errors, E.encode_errors,
+                  E.error_sites],
+        "explanation": "Frame structure on both sides (G10: VarU32 len(input), VarU32 len(deflated), deflated bytes; the reader "
+                       "consumes exactly the second length on every successful path; everything is deflated / inflated with "
+                       "read_to_end), true lengths through checked conversions (N6), no reservation from the untrusted length "
+                       "(N4), truncated frames are errors (P4, E1), flate2 failures are mapped to De/CompressionFailure (E3).",
+        "assumptions": ["inflate . deflate is the identity for every content and level and flate2/miniz_oxide never panic on "
+                        "damaged data (third-party, trusted)"],
+        "trusted_base": MIR_TB,
+    },
+    "C17": {
+        "level": "other",
+        "rules": [_n2, N.narrowing_casts, E.encode_errors, E.error_sites, G.char_codec, S.fresh_context, T.header_writer, D.validate],
+        "explanation": "Every may-panic site reachable from the encode entry points is discharged (N2; D6 certifies the new_v0 "
+                       "assertion, R2 the buffer unwraps), lengths are narrowed with try_into()? -> LengthTooLarge (N6), errors "
+                       "propagate (E2) and are constructed where documented: UnsupportedCharacter exactly outside the 16-bit "
+                       "range (G11), SerializingTransientConstructor (D3), UnknownFieldReferenceInEvolutionStep (T5); "
+                       "serialize() hands back the output only on the Ok edge (S5).",
+        "assumptions": [THIRD_PARTY, "declarations beyond the documented limits (> 255 steps, > 255 fields in a chunk) are out of scope"],
+        "trusted_base": MIR_TB,
+    },
     "C18": {
         "level": "proof",
-        "rules": [S.statics_inventory, S.lazy_initialisers, S.constructors_and_writers, S.no_hash_iteration, S.fresh_context],
-        "explanation": "Non-interference argument: the only process-wide state is Lazy<AdtMetadata> (S1) whose initialisers "
-                       "are closed functions of constants (S2); per-call state is created per context and written only by two "
-                       "functions (S3); hash seeds cannot reach the output (S4); every entry point builds a fresh context (S5).",
-        "assumptions": ["std::sync::Once / lazy_static run an initialiser at most once and publish its result safely",
-                        "auto-trait facts (contexts and State are !Send) are decided by the witness crate (U6) when present"],
+        "rules": [S.statics_inventory, S.lazy_initialisers, S.constructors_and_writers, S.no_hash_iteration, S.fresh_context,
+                  W.auto_traits, TH.derived_statics],
+        "explanation": "Non-interference argument: the only process-wide state is Lazy<AdtMetadata> (S1, also for every derive "
+                       "expansion in the corpus) whose initialisers are closed functions of constants (S2); per-call state is "
+                       "created per context and written only by two functions (S3); hash seeds cannot reach the output (S4); "
+                       "every entry point builds a fresh context (S5); contexts are !Send, metadata is Sync (U6).",
+        "assumptions": ["std::sync::Once / lazy_static run an initialiser at most once and publish its result safely"],
         "trusted_base": MIR_TB + ["std::sync::Once", "lazy_static", "rustc auto-trait inference"],
     },
     "C19": {
         "level": "other",
-        "rules": [U.inventory, U.transmutes, U.uninit_apis, U.raw_provenance],
+        "rules": [U.inventory, U.transmutes, U.uninit_apis, U.raw_provenance, W.lifetime_witnesses, W.auto_traits,
+                  G.sequences],
         "explanation": "Closed inventory of unsafe operations (U1) with a typed obligation at each transmute (U2), no "
-                       "uninitialised-memory API (U3) and a provenance rule for raw pointers that are handed back as "
-                       "references (U4).",
+                       "uninitialised-memory API (U3), a provenance rule for raw pointers that are handed back as references "
+                       "(U4), compiler verdicts on a catalogue of lifetime-escape witnesses with compiling twins (U5/U6), "
+                       "arrays built only from exactly L decoded elements (G8).",
         "assumptions": ["soundness of the unsafe code inside castaway, bytes, hashbrown, std is trusted",
                         "client programs are represented by the witness catalogue (U5) and the general U4 rule"],
-        "trusted_base": MIR_TB,
+        "trusted_base": MIR_TB + ["rustc borrow checker (witness verdicts)"],
     },
 }
